@@ -41,12 +41,11 @@ type c17Data struct {
 func (c17) Generate(tier string, yield func(*engine.Case) bool) {
 	emit := func(fam string, x, y, z *gen.Ty) bool {
 		d := c17Data{x, y, z}
-		b, _ := json.Marshal(d)
 		key := x.String() + " ~ " + y.String()
 		if z != nil {
 			key += " ~ " + z.String()
 		}
-		return yield(&engine.Case{Family: fam, Key: key, Data: b})
+		return yield(&engine.Case{Family: fam, Key: key, Lazy: func() json.RawMessage { b, _ := json.Marshal(d); return b }})
 	}
 	d1 := gen.Depth1All()
 	for _, x := range d1 {
